@@ -59,7 +59,9 @@ CResp ==
                           (Cardinality(applied) = 1 /\ Ev.raftidx \in applied), "returned-index-is-not-the-applied-index")
          b5 == Flag(b4, (Len(fwdret) = 1 /\ fwdret[1].err = "" /\ Ev.status = 200) => Ev.raftidx = fwdret[1].idx, "leader-index-changed-on-the-way-back")
          b6 == Flag(b5, ~authd => (Ev.status = 401 /\ Cardinality(applied) = 0), "unauthorized-request-not-refused")
-         b7 == Flag(b6, \A i \in 1..Len(loc) : (NeedLeader(r.kind) /\ loc[i].err = "" /\ ~r.churn /\ ~Ev.moved) => loc[i].inst = r.leaderapi, "served-locally-by-a-follower")
+         b6a == Flag(b6, Ev.status = 200 => Ev.bodyvalid, "answered-200-with-neither-results-nor-error")
+         b6b == Flag(b6a, (Ev.status = 200 /\ Ev.bodyvalid /\ Ev.bodyerr = "" /\ authd) => Ev.resok, "results-are-not-the-leaders-results")
+         b7 == Flag(b6b, \A i \in 1..Len(loc) : (NeedLeader(r.kind) /\ loc[i].err = "" /\ ~r.churn /\ ~Ev.moved) => loc[i].inst = r.leaderapi, "served-locally-by-a-follower")
          \* ---- rules for a stable leader ----
          s1 == IF r.churn \/ Ev.moved \/ ~authd THEN b7
                ELSE IF atLeader \/ ~NeedLeader(r.kind)
